@@ -17,6 +17,20 @@ PLAN = {
             'edges have integer length (axis-parallel / Pythagorean) times a power-of-two scale; irrational edge lengths are outside the exact domain',
         ],
     },
+    'C04': {
+        'stages': [
+            {'name': 'portions', 'stateful': True,
+             'mc': [{'module': 'MC_C04', 'cfg': cfgs('MC_C04_quick.cfg', 'MC_C04_thorough.cfg'), 'workers': 8},
+                    {'module': 'MC_C04', 'cfg': cfgs('MC_C04_sim.cfg', 'MC_C04_sim.cfg'), 'workers': 4,
+                     'simulate': {'quick': 'num=600', 'thorough': 'num=20000'}, 'extra_depth': 12}],
+             'trace': 'Trace_Curve'},
+        ],
+        'assumptions': [
+            'TLC evaluates the derived-curve operators of Curve.tla correctly (exact rational arithmetic)',
+            'harness projection: vertices/lengths of results quantised to 1/640 lattice unit (all exact values are multiples of 1/10)',
+            'tolerance is tiny (2^-20 unit): the |l1-l0| < tol guard is exercised only at zero travel',
+        ],
+    },
     'C18': {
         'stages': [
             {'name': 'angles',
